@@ -249,7 +249,8 @@ theorem h_pickLoop : ∀ (fuel : Nat) (st st' : St) (var : Nat), HInv st → st.
   | zero => intro st st' var _ hf; omega
   | succ fuel ih =>
     intro st st' var h hfuel hs
-    unfold pickLoop at hs
+    rw [pickLoop_eq_ref] at hs
+    unfold pickLoopRef at hs
     split at hs
     · rename_i hpop
       simp only [Prod.mk.injEq] at hs
@@ -309,6 +310,7 @@ theorem h_pickLoop : ∀ (fuel : Nat) (st st' : St) (var : Nat), HInv st → st.
             have : ¬ (st.vals[u]! == UNDEF) = true := hasg
             exact this (by simpa [valAt] using huu)
           · exact h1.hu u hu1 hu2 huv huu
+        rw [← pickLoop_eq_ref] at hs
         exact ih _ _ _ h2 hsz hs
 
 end Solvor.Sat.Cdcl
